@@ -39,7 +39,10 @@ static void mode_follow() {
         M.begin_case(c, "follow " + s.descr());
         vh::set_grid(s.n, 1);
         Built b = build(s, 1);
-        if (s.kind == K_KICKX || s.kind == K_KICKY) { auto o = s.off; b.kick->swapOffset(o); }
+        if (s.kind == K_KICKX || s.kind == K_KICKY) {
+            if ((c / 8) % 6 == 4) { kick_history_through_far_offsets(*b.kick, s.off, s.n, (uint64_t)c); M.ev("kick_maps_with_a_history_through_offsets_beyond_the_grid"); }
+            auto o = s.off; b.kick->swapOffset(o);
+        }
         const size_t nn = (size_t)s.n * s.n;
         float* din = b.in->getData();
         if (s.kind == K_WAKE) {
